@@ -71,10 +71,17 @@ func svNewJobStore() *jobs.JobStore {
 	return jobs.NewJobStore(config.Server{Node: &config.NodeConfig{DB: "goleveldb"}}, dir)
 }
 
+// svTrackerFullVotes: take all eight vote vectors (with the failing ones) in the quick tier too
+var svTrackerFullVotes bool
+
 type svWitnessRun struct {
 	writes []svKV
 	state  trackerlib.TrackerState
 	at     int
+	// before the block end: whether the tracker existed and in which state; after it: in how many stores it has a record
+	existed bool
+	state0  trackerlib.TrackerState
+	copies  int
 }
 
 // svTrackerBlockEnd builds a node with the given role and job store content
@@ -116,11 +123,20 @@ func svTrackerBlockEnd(witness bool, jobsMode int, pre *svEthPre) svWitnessRun {
 			}
 		}
 	}
+	existed, state0 := t != nil, trackerlib.TrackerState(0)
+	if t != nil {
+		state0 = t.State
+	}
 	w0 := len(svBlockWrites(e.app))
 	doEthTransitions(js, ctx.ethTrackers, me, log.NewLoggerWithPrefix(os.Stdout, "ethtracker"), ws, ctx.deliver)
-	r := svWitnessRun{writes: svBlockWrites(e.app)[w0:]}
+	r := svWitnessRun{writes: svBlockWrites(e.app)[w0:], existed: existed, state0: state0}
 	if t2, at := svTrackerAt(e, name); t2 != nil {
 		r.state, r.at = t2.State, at
+	}
+	for _, p := range []trackerlib.PrefixType{trackerlib.PrefixOngoing, trackerlib.PrefixPassed, trackerlib.PrefixFailed} {
+		if _, err := ctx.ethTrackers.WithState(ctx.deliver).WithPrefixType(p).Get(name); err == nil {
+			r.copies++
+		}
 	}
 	return r
 }
@@ -128,7 +144,7 @@ func svTrackerBlockEnd(witness bool, jobsMode int, pre *svEthPre) svWitnessRun {
 // svPreETHTracker: svPreETH with the tracker ongoing in any transition state.
 func svPreETHTracker(pre *svEthPre) func(e *svEnv) {
 	return func(e *svEnv) {
-		svLean = sv.Tier() == 0 // quick: 3 vote vectors x 2 rotations; thorough: 8 x 4
+		svLean = sv.Tier() == 0 && !svTrackerFullVotes // quick: 3 vote vectors x 2 rotations; thorough (and the C15 block-end harness): 8 x 4
 		svPreETH(pre, 2)(e)
 		svLean = false
 		if pre.where != 1 {
@@ -250,4 +266,41 @@ func SV_C07_tracker_checktx() {
 	without := run(false)
 	sv.Assert(svSameWrites(with, without), "tracker-transitions-independent-of-an-earlier-checktx")
 	sv.Cover(len(without) > 0, "transition-written")
+}
+
+// SV_C15_block_end_archives: the block-end transitions keep every tracker in
+// exactly one store, the one its state belongs to.
+//
+// sv:bounds as SV_C01_witness_role, plain node: one lock or redeem tracker, ETH or ERC20 type, absent or in any reachable state (New, BusyBroadcasting, BusyFinalizing, Released, Failed) with its recorded votes, or already archived
+// sv:outside several trackers in one block; the witness's local jobs (SV_C01_witness_role)
+// sv:goal after the block end a tracker that existed has a record in exactly one of the ongoing / succeeded / failed stores (so the duplicate check of a resubmitted lock or redeem still finds it): a tracker decided as released ends in the succeeded store, one decided as failed in the failed store, an undecided one stays ongoing
+func SV_C15_block_end_archives() {
+	svCurrencyLimit = 1
+	sv.NominalSizes(64)
+	pre := &svEthPre{}
+	svTrackerFullVotes = true
+	r := svTrackerBlockEnd(false, 0, pre)
+	svTrackerFullVotes = false
+	sv.Observe("existed", r.existed)
+	sv.Observe("state0", int(r.state0))
+	sv.Observe("copies", r.copies)
+	sv.Observe("at", r.at)
+	if !r.existed {
+		sv.Assert(r.copies == 0, "no-tracker-appears-at-the-block-end")
+		return
+	}
+	sv.Assert(r.copies == 1, "a-tracker-stays-in-exactly-one-store")
+	if pre.where == 1 {
+		switch r.state0 {
+		case trackerlib.Released:
+			sv.Assert(r.at == 2, "a-released-tracker-is-archived-in-the-succeeded-store")
+			sv.Cover(true, "archived-succeeded")
+		case trackerlib.Failed:
+			sv.Assert(r.at == 3, "a-failed-tracker-is-archived-in-the-failed-store")
+			sv.Cover(true, "archived-failed")
+		default:
+			sv.Assert(r.at == 1, "an-undecided-tracker-stays-ongoing")
+			sv.Cover(true, "stays-ongoing")
+		}
+	}
 }
